@@ -75,3 +75,20 @@ pub fn cmd_codegen(which: &str, _seed: u64, _n: usize, out: &mut dyn Write, dirs
         writeln!(out, "(case {k} {input} {res})").unwrap();
     }
 }
+
+/// `show-gen <which> <seed> <k>`: the k-th generated program of the seed as AxCut text and the
+/// assembly text the back end emits for it (for reports and minimisation; not part of any check)
+pub fn cmd_show_gen(which: &str, seed: u64, k: usize) {
+    use printer::Print;
+    let cfg = crate::gen_axlin::Cfg { max_args: match which { "x86" => 5, _ => 7 }, ..Default::default() };
+    let progs = crate::gen_axlin::programs(seed, k + 1, &cfg);
+    let (name, prog) = progs.into_iter().last().unwrap();
+    println!("// {name}\n{}\n", prog.print_to_string(None));
+    let text = catch(move || match which_static(which) {
+        "x86" => axcut2x86_64::into_routine::into_x86_64_routine(compile::<axcut2x86_64::Backend, _, _, _>(prog)).print_to_string(None),
+        "a64" => axcut2aarch64::into_routine::into_aarch64_routine(compile::<axcut2aarch64::Backend, _, _, _>(prog)).print_to_string(None),
+        _ => axcut2rv64::into_routine::into_rv64_routine(compile::<axcut2rv64::Backend, _, _, _>(prog)),
+    });
+    println!("{text}");
+}
+fn which_static(w: &str) -> &'static str { match w { "x86" => "x86", "a64" => "a64", _ => "rv" } }
